@@ -1139,6 +1139,10 @@ class Executor:
                     return a.t == z3.StringVal(b.v)
                 if is_usort(sa) and isinstance(b.v, str):
                     return a.t == str_const(sa, b.v)
+                zs = getattr(self.spec, 'zero_sentinels', {})
+                if is_usort(sa) and isinstance(b.v, int) and not isinstance(b.v, bool) \
+                        and b.v == 0 and sa.name() in zs:
+                    return a.t == zs[sa.name()]
                 return False
             if isinstance(b, TupV):
                 return False
